@@ -41,8 +41,8 @@ ASSUMPTIONS = [
     "strace sees the Python interpreter's own syscalls too: only network-family and process-creation syscalls are judged",
 ]
 SETTINGS: Dict[str, Dict[str, Any]] = {
-    "quick": {"cases": 160, "strace_every": 8, "budget_s": 75, "minimums": {"audited_runs": 120, "strace_runs": 12, "write_events": 400, "import_events": 20000, "modules_swept": 40, "import_sites": 250, "nontrivial": 100, "error_path_runs": 40, "runs_with_rp2_env_variable_set": 12, "tag_env_names_read_by_rp2": 2, "tag_error_types": 3, "tag_fault_class": 20, "large_input_runs": 2}, "required_tags": {"tag_country": list(COUNTRIES)}},
-    "thorough": {"cases": 1600, "strace_every": 8, "budget_s": 600, "minimums": {"audited_runs": 1200, "strace_runs": 120, "write_events": 4000, "import_events": 200000, "modules_swept": 40, "import_sites": 250, "nontrivial": 1000, "error_path_runs": 400, "runs_with_rp2_env_variable_set": 120, "tag_env_names_read_by_rp2": 2, "tag_error_types": 3, "tag_fault_class": 24, "large_input_runs": 20}, "required_tags": {"tag_country": list(COUNTRIES)}},
+    "quick": {"cases": 160, "strace_every": 8, "budget_s": 75, "minimums": {"audited_runs": 120, "strace_runs": 12, "write_events": 400, "import_events": 20000, "modules_swept": 40, "import_sites": 250, "nontrivial": 100, "error_path_runs": 40, "runs_with_rp2_env_variable_set": 12, "tag_env_names_read_by_rp2": 2, "tag_error_types": 3, "tag_fault_class": 20, "large_input_runs": 2, "tag_hard_error": 9}, "required_tags": {"tag_country": list(COUNTRIES)}},
+    "thorough": {"cases": 1600, "strace_every": 8, "budget_s": 600, "minimums": {"audited_runs": 1200, "strace_runs": 120, "write_events": 4000, "import_events": 200000, "modules_swept": 40, "import_sites": 250, "nontrivial": 1000, "error_path_runs": 400, "runs_with_rp2_env_variable_set": 120, "tag_env_names_read_by_rp2": 2, "tag_error_types": 3, "tag_fault_class": 24, "large_input_runs": 20, "tag_hard_error": 11}, "required_tags": {"tag_country": list(COUNTRIES)}},
 }
 NETWORK_MODULES = {
     "socket", "_socket", "ssl", "_ssl", "http", "http.client", "http.server", "http.cookiejar", "urllib.request", "urllib3", "ftplib", "smtplib", "poplib", "imaplib",
@@ -56,6 +56,8 @@ STRACE_FORBIDDEN = re.compile(r"\b(socket|connect|bind|listen|accept4?|sendto|re
 def _sha(path: str) -> str:
     if not os.path.exists(path):
         return "(absent)"
+    if os.path.isdir(path):
+        return "(directory) " + ",".join(sorted(os.listdir(path)))
     with open(path, "rb") as handle:
         return hashlib.sha256(handle.read()).hexdigest()
 
@@ -70,6 +72,7 @@ def _listing(root: str) -> List[str]:
 
 INPUT_ENV = ("CURRENCY_CODE", "LONG_TERM_CAPITAL_GAINS")  # inputs of the generic country (their faults are C12's classes)
 ENV_VALUES = ("1", "DEBUG", "INFO", "yes")
+HARD_ERRORS = ("ini-garbage-before-first-section", "ods-is-not-a-zip", "ods-missing", "ini-missing", "wrong-cell-type-number-in-text-field", "wrong-cell-type-text-in-timestamp", "ini-binary", "prefix-with-missing-subdirectory", "ini-is-a-directory", "ods-is-a-directory", "output-dir-is-a-file")
 KINDS = ("valid", "documented-fault", "valid-env", "documented-fault", "valid", "hard-error", "documented-fault", "invalid-option", "valid-env", "documented-fault", "large-input")
 
 
@@ -139,7 +142,9 @@ def scenario(rng: Any, index: int, env_names: Optional[List[str]] = None) -> Dic
         classes = sorted(by_class)
         case["fault"] = rng.choice(by_class[classes[index % len(classes)]])
     elif kind == "hard-error":
-        case["hard"] = rng.choice(("ini-garbage-before-first-section", "ods-is-not-a-zip", "ods-missing", "ini-missing", "wrong-cell-type-number-in-text-field", "wrong-cell-type-text-in-timestamp", "ini-binary"))
+        case["hard"] = HARD_ERRORS[((index // len(COUNTRIES)) // len(KINDS) * len(COUNTRIES) + index % len(COUNTRIES)) % len(HARD_ERRORS)]
+        if case["hard"] == "prefix-with-missing-subdirectory":
+            args += ["-p", "reports-2021/"]
     else:
         args += rng.choice((["-f", "2022-01-01", "-t", "2021-01-01"], ["-l", "x"], ["-g", "zz"], ["-a", "NOPE"], ["-f", "not-a-date"], ["--bogus-option"]))
     case["args"] = args
@@ -195,6 +200,12 @@ def apply_case(ws: Workspace, case: Dict[str, Any]) -> None:
             handle.write("timestamp,asset\n2020-01-01,AAA\n")
     elif hard == "ods-missing":
         os.remove(ws.ods)
+    elif hard == "ini-is-a-directory":
+        os.remove(ws.ini)
+        os.makedirs(ws.ini)
+    elif hard == "ods-is-a-directory":
+        os.remove(ws.ods)
+        os.makedirs(ws.ods)
     elif hard == "ini-missing":
         os.remove(ws.ini)
 
@@ -260,8 +271,12 @@ def _one(ctx: Any, case: Dict[str, Any], name: str, strace: bool) -> None:
         os.makedirs(home)
         with open(os.path.join(home, ".decoy"), "w", encoding="utf-8") as handle:
             handle.write("decoy")
-        before = {"ini": _sha(ws.ini), "ods": _sha(ws.ods), "cwd": _listing(ws.root), "home": _listing(home)}
         out_dir = ws.new_out()
+        if case.get("hard") == "output-dir-is-a-file":
+            os.rmdir(out_dir)
+            with open(out_dir, "w", encoding="utf-8") as handle:
+                handle.write("this is a file, not a directory\n")
+        before = {"ini": _sha(ws.ini), "ods": _sha(ws.ods), "cwd": _listing(ws.root), "home": _listing(home)}
         env_extra = dict(case.get("env") or {}) or None
         res = ws.run(case["country"], case["args"], out_dir=out_dir, audit=True, strace=False, home=home, env_extra=env_extra)
         ctx.count("executions")
@@ -299,6 +314,10 @@ def _one(ctx: Any, case: Dict[str, Any], name: str, strace: bool) -> None:
             ctx.violation("privacy.file-created-in-home", {"files": _listing(home)}, case)
         new_files = [f for f in _listing(ws.root) if f not in before["cwd"]]
         outside = [f for f in new_files if not (f.startswith(os.path.basename(out_dir) + os.sep) or f.startswith("log" + os.sep))]
+        if case.get("hard") == "output-dir-is-a-file":
+            with open(out_dir, encoding="utf-8") as handle:
+                if handle.read() != "this is a file, not a directory\n":
+                    ctx.violation("privacy.file-given-as-output-directory-modified", {}, case)
         if outside:
             ctx.violation("privacy.file-created-outside-output-and-log", {"files": outside[:5]}, case)
         if res.files or res.exit != 0:
